@@ -491,11 +491,13 @@ func (e *EdgeQuery) findEdgesInternal(target distanceTarget, opts *queryOptions)
 	if opts.useBruteForce || e.indexNumEdges < minOptimizedEdges {
 		// The brute force algorithm already considers each edge exactly once.
 		e.avoidDuplicates = false
+		verifEdgeQueryPath(false)
 		e.findEdgesBruteForce()
 	} else {
 		// If the target takes advantage of maxError then we need to avoid
 		// duplicate edges explicitly. (Otherwise it happens automatically.)
 		e.avoidDuplicates = targetUsesMaxError && opts.maxResults > 1
+		verifEdgeQueryPath(true)
 		e.findEdgesOptimized()
 	}
 }
